@@ -10,8 +10,7 @@ Check (C08_pending_tracked_at : forall es p i,
 Check (C08_pending_tracked_map : forall f es p,
   view_arr (prim_array_map f es p) = map (TObs f) (view_arr (VArr es p))).
 Check (C08_pending_tracked_concat : forall es1 p1 es2 p2,
-  exists p2', map snd p2' = map snd p2 /\
-    view_arr (prim_array_concat es1 p1 es2 p2) = view_arr (VArr es1 p1) ++ view_arr (VArr es2 p2')).
+  view_arr (prim_array_concat es1 p1 es2 p2) = view_arr (VArr es1 p1) ++ view_arr (VArr es2 p2)).
 Check (C08_pending_tracked_slice : forall s e es p v,
   prim_array_slice s e es p = Ok v ->
   view_arr v = firstn (e - s) (skipn s (view_arr (VArr es p)))).
@@ -89,9 +88,14 @@ Check (C08_concat_broken_refuted : exists n k T o pos s,
     wf_case k pos T = true /\ reaches n k o pos = true /\
     is_blame_res (run n (plug k pos (AStr s)) (Some T) o) = false).
 Check (C08_values_broken_refuted : exists fs, view_arr (prim_record_values_broken fs) <> map snd (sort_fields (view_rec (VRec fs)))).
-Check (C08_concat_label_refuted : exists (l : lit),
-    force 8 (TObs (OConcatL l) from_caller) = Err EBlame /\
+Check (C08_concat_label_preserved : forall l, l = LArr [ANum 1] (Some (CArr CNum)) ->
+    force 8 (TObs (OConcatL l) from_caller) = Err EBlameNeg /\
     force 8 (TObs OId from_caller) = Err EBlameNeg).
+Check (C08_concat_prefix_label_refuted : exists (l : lit),
+    force 8 (TObs (OConcatL_prefix l) from_caller) = Err EBlame /\
+    force 8 (TObs OId from_caller) = Err EBlameNeg).
+Check (C08_concat_prefix_not_tracked_refuted : exists es1 p1 es2 p2,
+    view_arr (prim_array_concat_prefix es1 p1 es2 p2) <> view_arr (VArr es1 p1) ++ view_arr (VArr es2 p2)).
 Check (C08_reach_table_correct : forall o zs p b m,
   reach_table o (List.length zs) p = Some b ->
   reaches (S (S (S (S m)))) (KArr (nums zs)) o [p] = b).
